@@ -43,6 +43,16 @@ static inline qstr qstr_jidToUser(qstr j) { if (j == 0) return 0; return __CPROV
 static inline qstr qstr_toLower(qstr j) { if (j == 0) return 0; qstr r = __CPROVER_uninterpreted_str_lower(j); __CPROVER_assume(r != 0 && __CPROVER_uninterpreted_str_lower(r) == r); return r; }
 static inline qstr qstr_trimmed(qstr j) { if (j == 0) return 0; qstr r = __CPROVER_uninterpreted_str_trimmed(j); __CPROVER_assume(r == 0 || __CPROVER_uninterpreted_str_trimmed(r) == r); return r; }
 
+/* QString::compare(other, cs): 0 exactly when the strings are equal (cs = Qt::CaseSensitive = 1) or equal after case folding
+   (cs = Qt::CaseInsensitive = 0, folding = the uninterpreted toLower); otherwise some non-zero sign (the order itself is not modelled) */
+int __CPROVER_uninterpreted_str_cmp_sign(qstr a, qstr b);
+static inline int qstr_compare_cs(qstr a, qstr b, int cs)
+{
+  bool eq = cs != 0 ? (a == b) : (a == b || (a != 0 && b != 0 && __CPROVER_uninterpreted_str_lower(a) == __CPROVER_uninterpreted_str_lower(b)));
+  if (eq) return 0;
+  return __CPROVER_uninterpreted_str_cmp_sign(a, b) > 0 ? 1 : -1;
+}
+
 /* concatenation and regular expressions: uninterpreted; only  a + "" = a,  "" + b = b  and "non-empty parts give a non-empty whole" */
 typedef int qrematch;   /* QRegularExpressionMatch: 0 = no match, otherwise an opaque match handle */
 qstr __CPROVER_uninterpreted_str_concat(qstr a, qstr b);
